@@ -10,7 +10,8 @@ CT_FUNCS = [('secp256k1_scalar_is_zero', []), ('secp256k1_scalar_cmov', []), ('s
             ('secp256k1_scalar_cond_negate', ['secp256k1_scalar_is_zero']), ('secp256k1_scalar_negate', ['secp256k1_scalar_is_zero']),
             ('secp256k1_fe_impl_normalize', []), ('secp256k1_fe_impl_normalize_weak', []), ('secp256k1_fe_impl_normalizes_to_zero', []),
             ('secp256k1_fe_impl_negate_unchecked', []), ('secp256k1_fe_impl_add', []), ('secp256k1_fe_impl_half', []), ('secp256k1_fe_impl_is_odd', []),
-            ('secp256k1_scalar_mul_512', []), ('secp256k1_scalar_sqr_512', [])]
+            ('secp256k1_scalar_mul_512', []), ('secp256k1_scalar_sqr_512', []),
+            ('secp256k1_scalar_reduce_512', ['secp256k1_scalar_check_overflow'], ['secp256k1_scalar_reduce'])]
 PROOFS = {'secp256k1_fe_mul_inner': ('Kernel/Field5x52.vo', 'fe_mul_inner_correct'),
           'secp256k1_fe_sqr_inner': ('Kernel/Field5x52Sqr.vo', 'fe_sqr_inner_correct')}
 # proofs over the regenerated branch-free primitives: (function, .vo, theorem)
@@ -29,11 +30,11 @@ def regenerate(funcs=None):
     gen = os.path.join(vlib.COQ, 'Gen'); os.makedirs(gen, exist_ok=True)
     res = {}; specs = {}
     for item in (funcs or [(f, []) for f in FUNCS]):
-        fn, deps = item
+        fn, deps = item[0], item[1]; inl = item[2] if len(item) > 2 else []
         short = fn.replace('secp256k1_', ''); path = os.path.join(gen, short + '.v')
         try:
             if any(d not in specs for d in deps): raise c2coq.Unsupported('a function it calls could not be translated')
-            text, ins, outs = c2coq.translate(vlib.REPO, fn, callees={d: specs[d] for d in deps}, requires=[d.replace('secp256k1_', '') for d in deps])
+            text, ins, outs = c2coq.translate(vlib.REPO, fn, callees={d: specs[d] for d in deps}, requires=[d.replace('secp256k1_', '') for d in deps], inlines=inl)
             specs[fn] = c2coq.translate.last.param_spec
             text = text.replace(vlib.REPO, '<repo>')
             if not os.path.exists(path) or open(path).read() != text + '\n':
